@@ -50,6 +50,11 @@ def relabel_equivariance(model, obs, emb, init, mask, iterations, opts, perms):
                         f'run follows another alignment: {r.desc}')
         if ties == 'rounding':
             return Skip('tie-within-rounding: inline aligner score tie')
+    if isinstance(r, Fail) and model in pu.INTEGRATION and (opts or {}).get('inline_permutation_alignment'):
+        gap = pu.integration_search_gap(model, obs, emb, init, iterations, opts)
+        if gap is not None and gap <= 1e-10:
+            return Skip('tie-within-rounding: two candidate permutations of the built-in alignment score the same '
+                        '(classes that the data does not tell apart)')
     return r
 
 
@@ -162,11 +167,53 @@ def aligner_tie_case():
                 perms=[[1, 2, 0]])
 
 
+def permuted_start_case(rng, name):
+    """integration model with its built-in alignment on the problem it is made for: the start has the class order exchanged
+    in some frequency bins, and the embeddings (almost) do not tell two of the sources apart, so that several candidate
+    permutations of a bin score nearly (but, by a small asymmetry, resolvably) the same"""
+    K = int(rng.choice([3, 3, 4]))
+    n, D, E = int(rng.integers(8, 16)), int(rng.integers(2, 5)), int(rng.integers(2, 4))
+    F, T = int(rng.choice([3, 5])), K * n
+    src = np.repeat(np.arange(K), n)
+    steer = rng.normal(size=(F, K, D)) + 1j * rng.normal(size=(F, K, D))
+    sig = rng.normal(size=(F, T, 1)) + 1j * rng.normal(size=(F, T, 1))
+    obs = sig * steer[:, src, :] + 0.2 * (rng.normal(size=(F, T, D)) + 1j * rng.normal(size=(F, T, D)))
+    centre = 3.0 * rng.normal(size=(K, E))
+    spread = 0.3 * rng.normal(size=(K, n, E))
+    a, b = rng.choice(K, 2, replace=False)
+    centre[b], spread[b] = centre[a], spread[a]        # sources a and b carry the same embedding vectors
+    emb = np.broadcast_to((centre[:, None, :] + spread).reshape(T, E), (F, T, E)).copy()
+    if name == 'vmfcacgmm':
+        emb /= np.linalg.norm(emb, axis=-1, keepdims=True)
+    pattern = np.full((K, T), 0.2 / (K - 1))
+    pattern[src, np.arange(T)] = 0.8
+    init = np.stack([pattern[rng.permutation(K) if f >= F // 2 else np.arange(K)] for f in range(F)])
+    # a small (resolvable) asymmetry: mass moved between class b and a third class on the frames of source b in one bin
+    # (moving it between a and b would rescale the weights of a's embedding vectors uniformly and leave an exact tie)
+    delta = 10.0 ** rng.uniform(-6, -4)
+    f0 = int(rng.integers(F))
+    c = int(rng.choice([k for k in range(K) if k not in (a, b)]))
+    init[f0, c, src == b] += delta
+    init[f0, b, src == b] -= delta
+    opts = {'weight_constant_axis': (-3,), 'inline_permutation_alignment': True}
+    if name == 'gcacgmm':
+        opts['covariance_type'] = str(rng.choice(['full', 'diagonal', 'spherical']))
+    perms = pu.all_perms(K)[1:]
+    if K == 4:
+        perms = [perms[i] for i in rng.permutation(len(perms))[:8]]
+    return dict(model=name, obs=obs, emb=emb, init=init, mask=None, iterations=int(rng.choice([2, 3, 6, 10])),
+                opts=opts, perms=perms)
+
+
 def search(ctx):
     rng = ctx.rng
     quick = ctx.tier == 'quick'
     ctx.count('targeted:inline-aligner-exact-tie')
     ctx.run(relabel_equivariance, **aligner_tie_case())
+    for i in range(ctx.n(16, 120)):
+        name = ('gcacgmm', 'vmfcacgmm')[i % 2]
+        ctx.count('targeted:permuted-start-embeddings-confuse-two-classes:' + name)
+        ctx.run(relabel_equivariance, **permuted_start_case(rng, name))
     sched = []
     for name in pu.MODELS:
         # every tying option of every trainer at least once, K = 2..4 exhaustively, then K = 5, 6 sampled
